@@ -216,6 +216,17 @@ pub fn c02_large(alg: Algorithm, inp: &LargeInput) -> Result<(bool, u64, u64), S
         if !(0.0..=1.0).contains(&r1) || (r1 == 1.0) != (old == new) {
             return Err(format!("TextDiff::ratio = {}", r1));
         }
+        // different element types on the two sides (equal across the types, hashing differently;
+        // a new type whose own Eq is finer) at this size
+        if n + m <= 1200 {
+            let lo: Vec<crate::instr::Lo> = old.iter().map(|&x| crate::instr::Lo(x)).collect();
+            let hi: Vec<crate::instr::Hi> = new.iter().map(|&x| crate::instr::Hi(x as u64)).collect();
+            let h = capture(alg, &lo[..], 0..n, &hi[..], 0..m)?;
+            chk(&h, "capture_diff with old items Lo(u32) and new items Hi(u64)")?;
+            let tg: Vec<crate::instr::Tagged> = new.iter().enumerate().map(|(i, &x)| crate::instr::Tagged { v: x, tag: i }).collect();
+            let h = capture(alg, &lo[..], 0..n, &tg[..], 0..m)?;
+            chk(&h, "capture_diff with old items Lo(u32) and new items Tagged{v,tag}")?;
+        }
         // the same lines as a caller-side DiffableStr whose hash is coarse (the line length only)
         if n + m <= 1200 {
             let t3 = subject(|| {
